@@ -556,7 +556,9 @@ pub fn finish(def: &PropertyDef, cfg: &Cfg, stats: &Stats, started: Instant) -> 
     let known = load_known_findings();
     let mut new_violations: Vec<(&Violation, PathBuf)> = Vec::new();
     let mut known_hits: BTreeMap<String, (u64, String)> = BTreeMap::new();
-    let replay_dir = Path::new(VERIF_ROOT).join("replays").join(def.id);
+    // development sweeps (tools/) redirect their output so that they never touch the committed evidence
+    let out_root = std::env::var_os("VERIF_OUT_ROOT").map(PathBuf::from).unwrap_or_else(|| PathBuf::from(VERIF_ROOT));
+    let replay_dir = out_root.join("replays").join(def.id);
     for v in &stats.violations {
         if let Some(k) = match_known(&known, def.id, v) {
             let e = known_hits.entry(format!("{} [{}]", k.signature, k.trigger)).or_insert((0, k.what.clone()));
@@ -620,7 +622,7 @@ pub fn finish(def: &PropertyDef, cfg: &Cfg, stats: &Stats, started: Instant) -> 
         "wall_s": started.elapsed().as_secs_f64(),
         "violations": new_violations.len(),
     });
-    let evidence_dir = Path::new(VERIF_ROOT).join("evidence");
+    let evidence_dir = out_root.join("evidence");
     let _ = std::fs::create_dir_all(&evidence_dir);
     let evidence_path = evidence_dir.join(format!("{}.json", def.id));
     if let Err(e) = std::fs::write(&evidence_path, serde_json::to_string_pretty(&evidence).unwrap_or_default()) {
